@@ -9,6 +9,27 @@ ALL = ["C%02d" % i for i in range(1, 21)]
 
 # id -> (category, text, note, technique, design_ref)
 CHECKS = {
+    "C04": ("fault_enumeration",
+            "(a) Every exception class the client classifies plus near-misses is injected at every position (response header, "
+            "multi action, multi region) for gets, puts and batches in a scenario where only the right reaction succeeds (the "
+            "region really moved and the old server keeps answering with that class; the connection stays poisoned; a "
+            "non-retryable error would be hidden by a retry). (b) Seeded fault scripts of 1..6 cluster events (move, split, "
+            "merge, offline, opening, too busy, call queue, throttling, abort, reset, server down, meta move, application "
+            "exception, unknown table) interleaved with requests; afterwards every request must have completed, real errors "
+            "unchanged and unretried, and a final round must execute on the current owners. (c) Admin calls across master "
+            "hold / restart / move.",
+            "Bounded progress (45-60 s with 2 s lookup and 1 s read timeouts) stands in for 'eventually'. All single faults "
+            "and classes are enumerated; longer scripts are sampled.",
+            "runtime fault-script execution with outcome + final-executor oracle on the simulated cluster", "DESIGN.md §2 C04"),
+    "C17": ("exploration",
+            "The real back-off function is run for every step of the schedule (quick up to 8.192 s, thorough to 33.192 s) and "
+            "compared with an independently computed schedule (elapsed >= step, next value, cancellation ends a wait). On the "
+            "wire, 11 persistent-failure scenarios x {single call, batch} record client-side timestamps of consecutive attempts "
+            "(request writes, establishment dials and probes, meta lookups, ZooKeeper lookups) and check gap_j >= w_(j-free), "
+            "free = 2 only for connection-level failures of a request; the maximum attempts per second is reported.",
+            "Only lower bounds on time are judged (load cannot falsify them); a wait that is too long is not detected. Quick "
+            "observes 6 s per scenario (8-9 attempts), thorough 70 s.",
+            "runtime timing monitor (lower bounds only) on client-side event timestamps", "DESIGN.md §2 C17"),
     "C03": ("fault_enumeration",
             "The real region client (reader goroutine, batching writer, callers sending unbatched calls) runs over an "
             "instrumented connection; for seeded workloads every fault position is enumerated: the k-th Read / Write / "
